@@ -36,4 +36,4 @@ class Prop(PoolProp):
                 (Cfg(n_workers=2, item_fault=[(0, 0)], calls=[(2, 1, True)]), ("roles", "WCFR", "never", True),
                  chooser_roles("WCFR", "never", True), "functor raises"),
                 (Cfg(n_workers=2, factory=True, quota=1, work_cap=1, calls=[(2, 1, True)]), ("roles", "CRFW", "after_put", True),
-                 chooser_roles("CRFW", "after_put", True), "D19: exit blocks on its stop orders (known finding)")]
+                 chooser_roles("CRFW", "after_put", True), "D19 (repaired): unreplaced retirements at the end of the last call, work-queue bound below the worker count")]
